@@ -130,6 +130,8 @@ def run(ctx):
                       "every internally installed consumer (the sync of references, depends(watch=True) callers), so that within one batch no consumer reads a cache whose invalidation is still queued", floor=2)
     ctx.rule("R09.q", "full_groupby model: the grouping behind the invalidation watchers (param._utils.full_groupby), interpreted on an interleaved list keyed by owner, yields one group per owner "
                       "holding all of its parameters -- none is dropped when another owner's parameter sits between two of them", floor=1)
+    ctx.rule("R09.w", "attribute resolution is per object: rx.__getattribute__ takes the attribute names an expression accepts from dir(<current object>) on every access; neither it nor a "
+                      "module-level helper it calls consults module-level mutable state or a memoised function (a memo keyed by type answers for the first object of that type ever seen)", floor=1)
     ctx.rule("R09.h", "watch delivery: reactive_ops._watch registers its callback with bind(<cb>, self._reactive, watch=True); inside the callback every path on which a function was given "
                       "hands the value to it (directly or through the async executor), and the callback reads no state of the shared .rx namespace object", floor=3)
     ctx.rule("R09.j", "where model: reactive_ops.where interpreted abstractly; the callbacks it binds to the dependencies of each branch are called under six current conditions "
@@ -367,6 +369,8 @@ def run(ctx):
     rx_model.value_setter_model(ctx, "R09.v")
     from checks.shared import full_groupby_model
     full_groupby_model(ctx, "R09.q")
+    from checks.shared import rx_attribute_resolution_is_per_object
+    rx_attribute_resolution_is_per_object(ctx, "R09.w")
     from checks.shared import invalidation_before_consumers
     invalidation_before_consumers(ctx, "R09.p")
     from checks import update_model
